@@ -484,7 +484,7 @@ func (s *sched) enabled(step int) []event {
 		} else if s.clientRunnable(c) {
 			ev = append(ev, event{"cli-step", c.i, 2})
 		}
-		if s.hasServer && c.conn.InflightC2S() > 0 && !c.conn.ServerClosed() {
+		if s.hasServer && c.conn.InflightC2S() > 0 && !c.conn.ServerClosed() && !(c.spec.Scripted && c.op < len(c.spec.Ops)) {
 			ev = append(ev, event{"deliver", c.i, 4})
 		}
 	}
@@ -926,6 +926,18 @@ func (s *sched) clientStep(c *cli) {
 		}
 	case "idle":
 		c.idle = true
+	case "pace":
+		if n := c.conn.InflightC2S(); n > op.Keep && !c.conn.ServerClosed() {
+			c.conn.DeliverC2S(n - op.Keep)
+			synctest.Wait()
+		}
+		if op.N > 0 {
+			d := time.Duration(op.N) * time.Millisecond
+			s.w.Rec(world.Ev{Actor: "sched", Kind: "advance", A: int64(d)})
+			s.sleep(d)
+			synctest.Wait()
+		}
+		c.op++
 	case "close":
 		c.conn.ClientClose()
 		c.op++
